@@ -350,7 +350,7 @@ def tasks(tier, seed):
             for zb in range(2 ** len(rb) - 1):
                 if tier == 'quick' and (za and zb) and case not in ('shared', 'same-vars'):
                     continue
-                T.append(Task('tables/%s/z%d-%d' % (case, za, zb), h_tables, (case, za, zb), tier='B'))
+                T.append(Task('tables/%s/z%d-%d' % (case, za, zb), h_tables, (case, za, zb), tier='B', vc_timeout_ms=120000, deadline_s=900))
     T.append(Task('assignment', h_assignment, (), tier='B'))
     boards = board_family(tier, seed)
     for bi, b in enumerate(boards):
